@@ -191,6 +191,49 @@ void harness_fetch_order(void)
 	WITNESS_END();
 }
 
+/* ================================================================== two subscribers, the FIRST one leaves: the second keeps getting events
+ * (the element's table of subscribed fetches then has a hole in front of the remaining entry) */
+void harness_first_subscriber_leaves(void)
+{
+	__CPROVER_assume(element_hashtable_create() == 0);
+	mkpeer(&A, true); mkpeer(&B, true); mkpeer(&C, true);
+	int v = (int)nd_range(0, 999);
+	scn_build_begin();
+	cJSON *add = mkreq("add", 1, path_params("a", 5));
+	scn_build_end();
+	__CPROVER_assume(dispatch(&A, add) == 0);
+	fetch_all(&B, "fb", 2);
+	fetch_all(&C, "fc", 3);
+#ifdef LEAVE_BY_DISCONNECT
+	free_peer_resources(&B);
+	dead_peer = &B;
+#else
+	scn_build_begin();
+	cJSON *un = mkreq("unfetch", 4, fetch_params("fb"));
+	scn_build_end();
+	__CPROVER_assume(dispatch(&B, un) == 0);
+#endif
+	reset_log();
+	scn_build_begin();
+	cJSON *chg = mkreq("change", 5, path_params("a", v));
+	cJSON *rem = mkreq("remove", 6, path_params("a", NO_VALUE));
+	scn_build_end();
+	__CPROVER_assume(dispatch(&A, chg) == 0);
+	CHECK(count_events(&C, 'c', "a") == 1 && count_kind(&B, K_EVENT) == 0, "C01.remaining_subscriber_gets_change_after_another_left");
+	struct sent *ec = last_of(&C, K_EVENT);
+	if (ec) CHECK(ec->value_int == v, "C01.change_event_carries_new_value");
+	__CPROVER_assume(dispatch(&A, rem) == 0);
+	CHECK(count_events(&C, 'r', "a") == 1 && count_kind(&B, K_EVENT) == 0, "C01.remaining_subscriber_gets_remove_after_another_left");
+	/* a new subscriber reuses the hole and sees the re-added element once */
+	reset_log();
+	scn_build_begin();
+	cJSON *add2 = mkreq("add", 7, path_params("a", 9));
+	scn_build_end();
+	__CPROVER_assume(dispatch(&A, add2) == 0);
+	CHECK(count_events(&C, 'a', "a") == 1, "C01.add_reaches_every_subscriber_exactly_once");
+	WITNESS_END();
+}
+
 #ifdef SCN_PROBE
 void harness_min(void)
 {
